@@ -125,6 +125,17 @@ def csv_round_trip(c, suffix, want_container=False):
     path = os.path.join(d, 'sim' + suffix)
     try:
         c.to_csv(path)
+        first = _cls().from_csv(path)
+        # the caller goes on using what it read (it owns it): more pairs, other values, metadata where that is a plain dict; the FILE has not
+        # changed, so reading the same path again gives what the file holds - that second reading is what this function reports
+        try:
+            for a, b, _ in list(first.items())[:3]:
+                first.set_similarity(a, b, 77.5)
+            first.set_similarity('ZZ:changed-by', 'ZZ:the-caller', 3.25)
+            if isinstance(first.metadata, dict):
+                first.metadata['changed-by'] = 'the caller'
+        except Exception:  # noqa
+            pass
         r = _cls().from_csv(path)
         if want_container:
             return r
@@ -230,6 +241,61 @@ def evaluate_csv_dialect(ctx, thorough):
                                  'theorem': 'Hpv.Props.C15.csv_round_trip (model of the csv module)'}, no_input=True)
         else:
             ctx.count(kind + '.agree')
+
+
+def many_items(ctx, rng, thorough):
+    """a container that has seen more distinct keys than 2^16 (thorough: 2^17): every stored pair reads back in both orders, pairs never set
+    read 0, len and the listing count each pair once - the statement of the property evaluated on the implementation against a plain dict"""
+    n = 140000 if thorough else 67000
+    c = _cls()()
+    want = {}
+    keys = [f'K:{i:06d}' for i in range(n)]
+    for i in range(n - 1):
+        a, b = (keys[i], keys[i + 1]) if i % 3 else (keys[i + 1], keys[i])
+        v = float(i % 97 + 1)
+        c.set_similarity(a, b, v)
+        want[tuple(sorted((a, b)))] = v
+    for i in (0, 1, 65534, 65535, 65536, 65537, n - 2):         # overwrites around the boundary
+        c.set_similarity(keys[i + 1], keys[i], 0.5)
+        want[tuple(sorted((keys[i], keys[i + 1])))] = 0.5
+    ctx.case(['many-items', n], True, 'more than 2^16 distinct keys', sample={'distinct_keys': n})
+    problem = None
+    probe = list(range(0, 300)) + list(range(65200, 65900)) + [rng.randrange(n - 1) for _ in range(3000)] + [n - 2]
+    for i in probe:
+        k = tuple(sorted((keys[i], keys[i + 1])))
+        g1, g2 = c.get_similarity(keys[i], keys[i + 1]), c.get_similarity(keys[i + 1], keys[i])
+        if g1 != want[k] or g2 != want[k]:
+            problem = f'get_similarity({keys[i]}, {keys[i + 1]}) = {g1} / reversed {g2}, last set {want[k]}'
+            break
+        j = (i + 2 + rng.randrange(n - 3)) % n
+        if abs(j - i) > 1 and j != i and c.get_similarity(keys[i], keys[j]) != 0:
+            problem = f'get_similarity({keys[i]}, {keys[j]}) = {c.get_similarity(keys[i], keys[j])} for a pair that was never set'
+            break
+    if problem is None and len(c) != len(want):
+        problem = f'len = {len(c)} with {len(want)} stored pairs'
+    if problem is None:
+        listed = {}
+        for a, b, v in c.items():
+            listed[tuple(sorted((a, b)))] = listed.get(tuple(sorted((a, b))), 0) + 1
+        if len(listed) != len(want) or any(x != 1 for x in listed.values()):
+            problem = f'items() lists {len(listed)} distinct pairs ({sum(listed.values())} rows), {len(want)} are stored'
+        elif set(listed) != set(want):
+            odd = sorted(set(listed) - set(want))[:3]
+            problem = f'items() lists pairs that were never set, e.g. {odd}, and misses {sorted(set(want) - set(listed))[:3]}'
+    if problem is None:
+        # pairs that were never set, at distances where packed / truncated keys would collide
+        for x in [65536, 65537, 65538, 66000, n - 1] + [rng.randrange(65536, n) for _ in range(300)]:
+            for d in (65536, 65535, 65537, 32768, 256):
+                for y in (x - d, x - d + 1, x - d - 1):
+                    if 0 <= y < n and abs(x - y) > 1 and c.get_similarity(keys[x], keys[y]) != 0:
+                        problem = f'get_similarity({keys[x]}, {keys[y]}) = {c.get_similarity(keys[x], keys[y])} for a pair that was never set'
+                        break
+                if problem:
+                    break
+            if problem:
+                break
+    if problem:
+        ctx.violation('many-items', {'case': {'kind': 'many-items', 'n': n}, 'impl': problem, 'theorem': 'Hpv.Props.C15.last_write / items_len'})
 
 
 def frame_tie(ctx, c, suffix, case):
@@ -435,12 +501,15 @@ def run(ctx):
         cases.append(([('ok', 'fine'), ('k', ch)], []))
     evaluate_meta(ctx, cases, forb, 'metadata+csv-round-trip')
     evaluate_csv_dialect(ctx, thorough)
+    many_items(ctx, rng, thorough)
 
 
 def replay(ctx, data):
     c = data['case']
     if c['kind'] == 'hist':
         evaluate_hist(ctx, [[tuple(o) for o in c['ops']]], 'replay')
+    elif c['kind'] == 'many-items':
+        many_items(ctx, ctx.rng, c['n'] > 100000)
     elif c['kind'] == 'csv-dialect':
         import csv
         rq = c['request']
